@@ -27,7 +27,7 @@ RULE = ("seeded datasets (x: 2-8 points, z: 1-14 numeric/str values, optional ro
 ASSUMPTIONS = [
     "matplotlib backend only (Agg); artists are inspected, pixels are not",
     "the colormap objects are matplotlib's own (viridis, plasma, ...) or xyzpy's xyz_colormaps(None) for the default map (trusted lookup)",
-    "heat-map quads are required to contain their coordinate only for uniformly spaced axes (edges are defined from the mean spacing); "
+    "a heat-map quad must contain the coordinate it stands for (how far it extends beyond is the library's choice); "
     "string or single-point heat-map axes are outside the statement's 'x-y mesh' and are not generated",
     "a histogram series without any finite value has no density; it is only required not to disturb the other series",
     "scatter points are compared as multisets of (x, y[, c]) per series; line points as exact sequences",
@@ -42,6 +42,7 @@ MIN_REACH = {
     "heatmap_cells_compared": {"quick": 500, "thorough": 8000},
     "heatmap_norms_compared": {"quick": 15, "thorough": 250},
     "heatmap_colour_maps_compared": {"quick": 4, "thorough": 80},
+    "heatmaps_on_unevenly_spaced_axes": {"quick": 3, "thorough": 60},
     "panel_titles_read_back": {"quick": 100, "thorough": 1500},
     "histograms_with_explicit_axis_limits": {"quick": 5, "thorough": 100},
     "explicit_colour_limits": {"quick": 8, "thorough": 150},
@@ -789,7 +790,9 @@ def run_case(ctx, case):
             row_of_rank = np.argsort(np.argsort(cy))
             xs_sorted_idx = np.argsort(xs)
             ys_sorted_idx = np.argsort(ys)
-            ok_uniform = case["uniform"] or base == "auto_heatmap"
+            ok_uniform = True       # (every quad contains the coordinate it stands for, on evenly AND unevenly spaced axes)
+            if not case["uniform"] and base != "auto_heatmap":
+                ctx.count("heatmaps_on_unevenly_spaced_axes")
             for a in range(Z.shape[0]):
                 for b_ in range(Z.shape[1]):
                     ia = ys_sorted_idx[row_of_rank[a]]      # dataset index along y shown by mesh row a
